@@ -594,7 +594,7 @@ def case_eval(ctx, s: Subject, nest_name=IDENT_NEST):
              features=s.features + (kind,), nontrivial=s.nontrivial())
 
 
-def case_eval_assign(ctx, s: Subject, nest_name=IDENT_NEST):
+def case_eval_assign(ctx, s: Subject, nest_name=IDENT_NEST, target=None):
     rng = ctx.rng
     if not num_fields(s.ty):
         return
@@ -604,7 +604,7 @@ def case_eval_assign(ctx, s: Subject, nest_name=IDENT_NEST):
     nf, labels, other = mk_nf(ctx, s, labels=labels, nest_name=nest_name)
     fj = frame_json(nf)
     ej, es, _ = rand_arith(rng, nest_name, s.ty, 2)
-    target = rng.choice(["existing", "new", "new_nest"])
+    target = target or rng.choice(["existing", "new", "new_nest"])
     names = [x for x, _ in s.ty]
     if target == "existing":
         tn, tf = nest_name, rng.choice(names)
